@@ -166,6 +166,71 @@ func main() {
 	res := seqmc.Explore(r, seqmc.Config{Name: "bimap", New: func() seqmc.Sys {
 		return &h{u: u, b: &maps.Bimap[int, int]{}, model: map[int]int{}}
 	}})
+	// Large-size family: up to 200 pairs with every collision pattern, against a pair model
+	famCalls := 0
+	for _, n := range []int{9, 17, 33, 65, 200} {
+		b := &maps.Bimap[int, int]{}
+		fwd, rev := map[int]int{}, map[int]int{}
+		add := func(k, v int) {
+			b.Add(k, v)
+			if ov, ok := fwd[k]; ok {
+				delete(rev, ov)
+			}
+			if ok2, ok := rev[v]; ok {
+				delete(fwd, ok2)
+			}
+			fwd[k], rev[v] = v, k
+		}
+		check := func(what string) {
+			famCalls++
+			bad := b.Len() != len(fwd) || len(fwd) != len(rev)
+			for k, v := range fwd {
+				gv, ok := b.GetForward(k)
+				gk, ok2 := b.GetReverse(v)
+				if !ok || !ok2 || gv != v || gk != k || !b.ContainsForward(k) || !b.ContainsReverse(v) {
+					bad = true
+				}
+			}
+			cnt := 0
+			b.Range(func(k, v int) bool { cnt++; return fwd[k] == v })
+			if cnt != len(fwd) || b.ContainsForward(-1) || b.ContainsReverse(-1) {
+				bad = true
+			}
+			if bad {
+				r.Report(ev.Violation{Sig: "family|bimap", Msg: fmt.Sprintf("%s with about %d pairs: Bimap disagrees with the pair model (Len %d, model %d)", what, n, b.Len(), len(fwd)), Replay: map[string]any{"family": "big-bimap", "n": n}})
+			}
+		}
+		for i := 0; i < n; i++ {
+			add(i, i+1000)
+		}
+		check("after distinct Adds")
+		for i := 0; i < n; i += 2 {
+			add(i, i+1001) // same key, value of the next pair: double collision
+		}
+		check("after colliding Adds")
+		for i := 0; i < n; i += 3 {
+			b.RemoveForward(i)
+			if v, ok := fwd[i]; ok {
+				delete(rev, v)
+				delete(fwd, i)
+			}
+			b.RemoveReverse(i + 1002)
+			if k, ok := rev[i+1002]; ok {
+				delete(fwd, k)
+				delete(rev, i+1002)
+			}
+		}
+		check("after removals")
+		c := b.Clone()
+		c.Add(-5, -6)
+		c.RemoveForward(1)
+		check("after mutating a clone, the original")
+		b.Clear()
+		fwd, rev = map[int]int{}, map[int]int{}
+		add(3, 4)
+		check("after Clear and one Add")
+	}
+	r.Set("large_size_family_calls", famCalls)
 	// nil receiver Len
 	var nb *maps.Bimap[int, int]
 	if nb.Len() != 0 {
